@@ -1,4 +1,5 @@
 import Drv.Common
+import Drv.Args
 open Lean
 
 def handle (line : String) : String :=
@@ -9,6 +10,8 @@ def handle (line : String) : String :=
       let op ← Drv.fldStr j "op"
       match op with
       | "hash" => Drv.opHash j
+      | "argctx" => Drv.opArgCtx j
+      | "leafsig" => Drv.opLeafSig j
       | _ => .error s!"unknown op {op}"
     match r with
     | .ok o => o.compress
